@@ -112,7 +112,7 @@ fn run(payload: &str) -> String {
     let segs: Vec<&str> = payload.split(';').collect();
     let sync = match segs.first() {
         Some(&"cfg:s") => true,
-        Some(&"cfg:a") | Some(&"cfg:p") => false,
+        Some(&"cfg:a") | Some(&"cfg:p") | Some(&"cfg:q") => false,
         _ => return "bad-case".to_string(),
     };
     let nb = segs[1..].iter().take_while(|s| s.starts_with("b:")).count();
@@ -123,7 +123,8 @@ fn run(payload: &str) -> String {
     };
     let ops = &segs[1 + nb..];
     let built = Rc::new(Cell::new(0usize));
-    let generator = Gen { specs: specs.clone(), built: built.clone(), slow: segs[0] == "cfg:p" };
+    let generator = Gen { specs: specs.clone(), built: built.clone(), slow: segs[0] == "cfg:p" || segs[0] == "cfg:q" };
+    let shadow = segs[0] == "cfg:q";
     let provider: Vec<LanguageIdentifier> = specs.iter().filter_map(|s| s.locale.clone()).collect();
     let bundles: Bundles<Gen> = Bundles::new(sync, FxHashSet::default(), &generator, &provider);
 
@@ -138,6 +139,34 @@ fn run(payload: &str) -> String {
                 outs.push("ok".to_string());
                 continue;
             }
+            ["v", k] if shadow => parse_key(k).map(|k| {
+                // cfg:q - a second, identical request is in flight on the same Bundles at the same time
+                let args = key_args(&k);
+                let mut scratch: Vec<LocalizationError> = vec![];
+                let (r, r2) = block_on(async {
+                    futures::join!(
+                        bundles.format_value(&k.id, args.as_ref(), &mut errors),
+                        bundles.format_value(&k.id, args.as_ref(), &mut scratch)
+                    )
+                });
+                if show_val(&r2) != show_val(&r) {
+                    format!("{} SHADOW-DISAGREE({})", show_val(&r), show_val(&r2))
+                } else {
+                    show_val(&r)
+                }
+            }),
+            ["vv", ks] if shadow => parse_keys(ks).map(|ks| {
+                let keys = l10n_keys(&ks);
+                let mut scratch: Vec<LocalizationError> = vec![];
+                let (r, r2) = block_on(async {
+                    futures::join!(bundles.format_values(&keys, &mut errors), bundles.format_values(&keys, &mut scratch))
+                });
+                if show_vals(&r2) != show_vals(&r) {
+                    format!("{} SHADOW-DISAGREE({})", show_vals(&r), show_vals(&r2))
+                } else {
+                    show_vals(&r)
+                }
+            }),
             ["v", k] => parse_key(k).map(|k| {
                 let args = key_args(&k);
                 let r = block_on(bundles.format_value(&k.id, args.as_ref(), &mut errors));
